@@ -204,13 +204,13 @@ func (b fbBatch) DeleteBatch(ctx context.Context, paths []string) error {
 
 type row struct {
 	rid int
-	k   [4]int // k[L] = id of the dedup key at level L (1: time, 2: time+host, 3: time+host+region)
+	k   [5]int // k[L] = id of the dedup key at level L (1: time, 2: time+host, 3: time+host+region, 4: time+region)
 }
 
 type pfile struct {
 	idx   int
 	key   string // storage key
-	level int    // 0: no dedup metadata, 1: arc:dedup_time only, 2: arc:tags=host, 3: arc:tags=host,region
+	level int    // 0: no dedup metadata, 1: arc:dedup_time only, 2: arc:tags=host, 3: arc:tags=host,region, 4: arc:tags=region
 	meta  string // textual description of the metadata
 	rows  []row
 }
@@ -243,20 +243,20 @@ type caseT struct {
 	recFail   []int     // per faulty cycle: index into the oldest manifest's inputs whose recovery delete fails (-1 none)
 	quiesce   int
 	rids      intern
-	kids      [4]intern
+	kids      [5]intern
 	plevel    int
 	root      string
 	nameOf    map[string]string // storage key -> canonical id
 	jobSeq    int
 	origRid   map[int]int
-	ridKey    map[int][4]int
+	ridKey    map[int][5]int
+	causes    map[string]bool
 	replay    strings.Builder
 	notes     []string
 	tagsSeen  map[string]bool
 	manInputs map[string][]string // manifest path -> inputs (learned from manifest writes)
 	manOut    map[string]string
 	scanCache map[string][]int
-	coarsest  int // coarsest positive dedup level among the original files (3 if none)
 }
 
 var (
@@ -293,7 +293,37 @@ func canonRow(g grow) string {
 	return sb.String()
 }
 
-var levelCols = [4][]string{nil, {"time"}, {"time", "host"}, {"time", "host", "region"}}
+var levelCols = [5][]string{nil, {"time"}, {"time", "host"}, {"time", "host", "region"}, {"time", "region"}}
+
+// joinLevel: union of two declared tag sets (same table as the Lean model)
+func joinLevel(a, b int) int {
+	switch {
+	case a == 0:
+		return b
+	case b == 0:
+		return a
+	case a == b:
+		return a
+	case a == 1:
+		return b
+	case b == 1:
+		return a
+	}
+	return 3
+}
+
+// meetLevel: the finest level that is coarser than both (1 = time only)
+func meetLevel(a, b int) int {
+	switch {
+	case a == b:
+		return a
+	case a == 3:
+		return b
+	case b == 3:
+		return a
+	}
+	return 1
+}
 
 func canonKey(g grow, keyCols []string) string {
 	var sb strings.Builder
@@ -614,6 +644,8 @@ func levelOfTags(v string) int {
 		return 2
 	case "host,region", "region,host":
 		return 3
+	case "region":
+		return 4
 	}
 	return 9
 }
@@ -881,6 +913,16 @@ func (cs *caseT) rowsAt(path string) ([]int, error) {
 	return ids, nil
 }
 
+// levelOfPath: dedup level declared by a data file's metadata (compaction outputs declare none).
+func (cs *caseT) levelOfPath(path string) int {
+	for _, f := range cs.files {
+		if f.key == path {
+			return f.level
+		}
+	}
+	return 0
+}
+
 // lossLevel: the level at which the rows of a data file must stay distinguishable: the level its own
 // metadata declares; for files without metadata (legacy files, compaction outputs) the finest one.
 func (cs *caseT) lossLevel(path string) int {
@@ -962,41 +1004,62 @@ func (cs *caseT) observe(who, kind, path string, data []byte) {
 		}
 		oc := countOf(outRows)
 		lv := cs.lossLevel(path)
-		okeys := map[int]bool{}
-		ckeys := map[int]bool{}
-		for _, r := range outRows {
-			if k, ok := cs.ridKey[r]; ok {
-				okeys[k[lv]] = true
-				ckeys[k[cs.coarsest]] = true
+		// the level the job must have deduped at: union of the tag sets its inputs declare
+		union, allTagged, firstTagged := 0, true, 0
+		for _, f := range m.InputFiles {
+			l := cs.levelOfPath(f)
+			union = joinLevel(union, l)
+			if l < 2 {
+				allTagged = false
+			} else if firstTagged == 0 {
+				firstTagged = l
 			}
 		}
-		ok, coarse := true, true
-		for r, n := range countOf(cur) {
-			if oc[r] >= n {
-				continue
+		coveredAt := func(L int) bool {
+			keys := map[int]bool{}
+			for _, r := range outRows {
+				if k, ok := cs.ridKey[r]; ok {
+					keys[k[L]] = true
+				}
 			}
-			k, known := cs.ridKey[r]
-			if cs.kind != "plain" && known && okeys[k[lv]] {
-				continue // collapsed into a row with the same (tags,time)
+			for r, n := range countOf(cur) {
+				if oc[r] >= n {
+					continue
+				}
+				k, known := cs.ridKey[r]
+				if !(cs.kind != "plain" && L > 0 && known && keys[k[L]]) {
+					return false
+				}
 			}
-			ok = false
-			if !(cs.kind != "plain" && known && ckeys[k[cs.coarsest]]) {
-				coarse = false
-			}
+			return true
 		}
-		if ok {
+		if coveredAt(lv) {
 			covered = true
 			break
 		}
 		why = "output " + cs.canonName(m.OutputPath) + " does not contain its rows"
-		if coarse {
-			whyKey = "coarse"
+		switch {
+		case union > 0 && coveredAt(union):
+			// deduped at the union of the declared tags, but this input declares none (legacy file /
+			// compaction output) and needs a finer key: the known coarser-key loss
+			whyKey = "collapsed-under-coarser-key"
+		case union > 0 && coveredAt(1):
+			// not even covered at the union level: the job used a key coarser than the union of the
+			// tags its inputs declare
+			whyKey = "tag-union-not-taken"
+			if !allTagged {
+				whyKey = "tag-union-not-taken:mixed-with-untagged"
+			}
+			why += fmt.Sprintf(" at the union level %d of the inputs' arc:tags (first tagged input declares level %d)", union, firstTagged)
+		}
+		if whyKey != "" {
+			cs.causes[whyKey] = true
 		}
 	}
 	if !covered {
 		cls := who
 		if whyKey != "" {
-			cls = "collapsed-under-coarser-key"
+			cls = whyKey
 		}
 		ctxC.Fail("C09:input-deleted-before-output-complete:"+cls,
 			fmt.Sprintf("%s deleted %s while no complete output containing its rows exists (%s)", who, name, why),
